@@ -22,42 +22,17 @@ H4 = [[[0, 1, 0, 0], [1, 0, 0, 0], [0, 0, 0, 1], [0, 0, 1, 0]], [[1, 0, 1, 0], [
 def poly(cs, z):
     v = mp.mpc(0)
     for k, c_ in enumerate(cs):
-        v += c_ * z ** k
+        v += (mp.mpc(c_[0], c_[1]) if isinstance(c_, (list, tuple)) else c_) * z ** k
     return v
 
 
-def main():
-    c = pv.Check("C12")
-    thorough = c.tier == "thorough"
-    rng = random.Random(c.seed)
-    exe = pv.harness("plain", "pv_driver")
-    hs = []
-    two = [[[a, b], [b, d]] for a in (-1, 0, 1) for b in (-1, 0, 1) for d in (-1, 0, 1)]
-    if not thorough:
-        two = rng.sample(two, 8) + [[[0, 0], [0, 0]], [[1, 0], [0, 1]]]
-    for h in two + H3[: (len(H3) if thorough else 4)] + H4[: (len(H4) if thorough else 3)]:
-        hs.append({"id": "h%d" % len(hs), "h": h})
-    if thorough:
-        for k in range(20):
-            n = rng.choice([3, 4])
-            a = [[0] * n for _ in range(n)]
-            for i in range(n):
-                for j in range(i, n):
-                    a[i][j] = a[j][i] = rng.choice([-2, -1, 0, 0, 1, 2])
-            hs.append({"id": "r%d" % k, "h": a})
-    path = pv.OUT + "/C12/h.ndjson"
-    import os
-    os.makedirs(pv.OUT + "/C12", exist_ok=True)
-    with open(path, "w") as f:
-        for h in hs:
-            f.write(json.dumps(h) + "\n")
-    res = pv.run_tlc("WickGen", "WickGen", workers=4, timeout=1800, env={"MODELS": path})
-    c.add_tlc(res, "WickGen")
-    if res.violated:
-        pv.log("INFRA: Wick.tla identity fails: %s" % res.violated)
-        sys.exit(2)
-    pred = {p["id"]: p for p in res.pv}
-    betas = ["0.5", "3.0", "25.0"]
+def entry(x):
+    """matrix entry of h: integer (real build) or [re, im] (complex build)"""
+    return (x[0], x[1]) if isinstance(x, (list, tuple)) else (x, 0)
+
+
+def run_family(c, exe, hs, pred, rng, thorough, cplx_build=False):
+    betas = ["0.5", "3.0", "25.0"] if not cplx_build else ["0.5", "3.0"]
     NS = [-3, -1, 0, 2, 20]
     ZS = [["0.3", "1.7"], ["-1.5", "-0.2"]]
     tri = [[a, b, d] for a in (-2, -1, 0, 1) for b in (-2, -1, 0, 1) for d in (-2, -1, 0, 1)]
@@ -69,8 +44,8 @@ def main():
         build = []
         for i in range(n):
             for j in range(n):
-                if hh["h"][i][j] != 0:
-                    build.append(["AddTerm", 1, {"ops": [[1, tr[i][0], tr[i][1], tr[i][2]], [0, tr[j][0], tr[j][1], tr[j][2]]], "v": 4 * hh["h"][i][j]}])
+                if entry(hh["h"][i][j]) != (0, 0):
+                    build.append(["AddTerm", 1, {"ops": [[1, tr[i][0], tr[i][1], tr[i][2]], [0, tr[j][0], tr[j][1], tr[j][2]]], "v": 4 * entry(hh["h"][i][j])[0], "vi": 4 * entry(hh["h"][i][j])[1]}])
         if not build:    # h = 0: a lattice needs no terms at all
             build = []
         meta[hh["id"]] = (lay, tr, build)
@@ -166,7 +141,66 @@ def main():
                             break
         if ok_model:
             c.traces += 1
-    c.sample({"h": hs[3]["h"], "betas": betas, "triples": "all of {-2..1}^3"})
+
+
+def main():
+    c = pv.Check("C12")
+    thorough = c.tier == "thorough"
+    rng = random.Random(c.seed)
+    exe = pv.harness("plain", "pv_driver")
+    hs = []
+    two = [[[a, b], [b, d]] for a in (-1, 0, 1) for b in (-1, 0, 1) for d in (-1, 0, 1)]
+    if not thorough:
+        two = rng.sample(two, 8) + [[[0, 0], [0, 0]], [[1, 0], [0, 1]]]
+    for h in two + H3[: (len(H3) if thorough else 4)] + H4[: (len(H4) if thorough else 3)]:
+        hs.append({"id": "h%d" % len(hs), "h": h})
+    if thorough:
+        for k in range(20):
+            n = rng.choice([3, 4])
+            a = [[0] * n for _ in range(n)]
+            for i in range(n):
+                for j in range(i, n):
+                    a[i][j] = a[j][i] = rng.choice([-2, -1, 0, 0, 1, 2])
+            hs.append({"id": "r%d" % k, "h": a})
+    path = pv.OUT + "/C12/h.ndjson"
+    import os
+    os.makedirs(pv.OUT + "/C12", exist_ok=True)
+    with open(path, "w") as f:
+        for h in hs:
+            f.write(json.dumps(h) + "\n")
+    res = pv.run_tlc("WickGen", "WickGen", workers=4, timeout=1800, env={"MODELS": path})
+    c.add_tlc(res, "WickGen")
+    if res.violated:
+        pv.log("INFRA: Wick.tla identity fails: %s" % res.violated)
+        sys.exit(2)
+    pred = {p["id"]: p for p in res.pv}
+    run_family(c, exe, hs, pred, rng, thorough)
+    # complex-Hermitian h in the complex matrix-element build (WickC.tla: the same recursion over Gaussian integers)
+    chs = [{"id": "ch0", "h": [[[1, 0], [1, 2]], [[1, -2], [-1, 0]]]}, {"id": "ch1", "h": [[[0, 0], [0, 1]], [[0, -1], [0, 0]]]},
+           {"id": "ch2", "h": [[[0, 0], [0, 1], [0, 0]], [[0, -1], [1, 0], [2, -1]], [[0, 0], [2, 1], [0, 0]]]},
+           {"id": "ch3", "h": [[[1, 0], [1, 1], [0, 0], [0, 0]], [[1, -1], [1, 0], [0, 0], [0, 0]], [[0, 0], [0, 0], [-1, 0], [0, 2]], [[0, 0], [0, 0], [0, -2], [-1, 0]]]}]
+    if thorough:
+        for k in range(12):
+            n = rng.choice([2, 3, 4])
+            a = [[[0, 0] for _ in range(n)] for _ in range(n)]
+            for i in range(n):
+                a[i][i] = [rng.choice([-1, 0, 1, 2]), 0]
+                for j in range(i + 1, n):
+                    re, im = rng.choice([-1, 0, 1]), rng.choice([-2, -1, 0, 1])
+                    a[i][j] = [re, im]
+                    a[j][i] = [re, -im]
+            chs.append({"id": "chr%d" % k, "h": a})
+    cpath = pv.OUT + "/C12/hc.ndjson"
+    with open(cpath, "w") as f:
+        for h in chs:
+            f.write(json.dumps(h) + "\n")
+    cres = pv.run_tlc("WickCGen", "WickCGen", workers=4, timeout=1800, env={"MODELS": cpath})
+    c.add_tlc(cres, "WickCGen")
+    if cres.violated:
+        pv.log("INFRA: WickC.tla identity fails: %s" % cres.violated)
+        sys.exit(2)
+    run_family(c, pv.harness("cplx", "pv_driver"), chs, {p["id"]: p for p in cres.pv}, rng, thorough, cplx_build=True)
+    c.sample({"h": hs[3]["h"], "betas": ["0.5", "3.0", "25.0"], "triples": "all of {-2..1}^3", "complex_h": chs[0]["h"]})
     c.rule = "%d integer symmetric matrices h (2x2 over {-1,0,1}, 3x3, 4x4 incl. zero / degenerate / block-diagonal) x 3 betas: all G_ij at 5 Matsubara + 2 off-axis points; chi and vertex for all (n=2) or sampled quadruples x 64 triples; non-trivial = distinct (h, quadruple)" % len(hs)
     c.trusted = ["TLC", "tools comparator evaluating Adj/Det (mpmath)"]
     c.assumptions = ["real symmetric h (complex Hermitian needs the complex build)", "tolerance chi: 1e-7 (1 + beta^2)"]
